@@ -426,6 +426,42 @@ class RegisteredMapping:
 collections.abc.Mapping.register(RegisteredMapping)
 
 
+class Headers(collections.abc.Mapping):
+    """a multi-valued mapping (HTTP headers, multidict): keys() and items() list a repeated key once per value, h[key] answers
+    with the first one -- its items are what items() says"""
+
+    def __init__(self, pairs):
+        self._pairs = list(pairs)
+
+    def __getitem__(self, k):
+        for kk, v in self._pairs:
+            if kk == k:
+                return v
+        raise KeyError(k)
+
+    def __iter__(self):
+        return iter([k for k, _ in self._pairs])
+
+    def __len__(self):
+        return len(self._pairs)
+
+    def keys(self):
+        return [k for k, _ in self._pairs]
+
+    def items(self):
+        return list(self._pairs)
+
+    def values(self):
+        return [v for _, v in self._pairs]
+
+
+class ShoutingDict(dict):
+    """a dict whose subscription transforms the stored value: its items are the stored ones"""
+
+    def __getitem__(self, k):
+        return str(dict.__getitem__(self, k)).upper()
+
+
 class DictSubclass(dict):
     pass
 
@@ -595,6 +631,8 @@ FACTORIES = {
     "dict-keys-view": (lambda: {"a": 1, "bc": 2}.keys(), None),
     "dict-values-view": (lambda: {"a": (1, 2), "b": (3, 4)}.values(), None),
     "Counter": (lambda: collections.Counter("aab"), None),
+    "Headers-repeated-key": (lambda: Headers([("set-cookie", "a=1"), ("host", "h"), ("set-cookie", "b=2")]), None),
+    "Headers-pairfirst": (lambda: Headers([("ab", (1, 2)), ("ab", 3)]), None), "ShoutingDict": (lambda: ShoutingDict(a="x", b=(1, 2)), None),
     "ChainMap": (lambda: collections.ChainMap({"a": 1}, {"b": (1, 2)}), None),
     "defaultdict": (lambda: collections.defaultdict(list, {(1, 2): [1]}), None),
     "iter-of-dict-items": (lambda: iter({"a": 1, "b": 2}.items()), None),
